@@ -167,17 +167,36 @@ func (r *runner) target(inc, slot int) *targetRec {
 	return nil
 }
 
+// canonIdx: the index under which the model sees the pid / alias of t. Identifiers are compared as
+// the VALUES the implementation sees: when an incarnation restarted within the same second mints the
+// same pid / alias again (same node, id and creation: known finding restart-same-second), both
+// incarnations' identifiers are one identifier, named by the index of the first target that had it
+// (the same rule maps the identifiers found in notifications, world.targetIndex).
+func (r *runner) canonIdx(tk int, t *targetRec) int {
+	switch tk {
+	case tkPid:
+		if i := r.w.targetIndex(tkPid, t.pid); i > 0 {
+			return i
+		}
+	case tkAlias:
+		if i := r.w.targetIndex(tkAlias, t.alias); i > 0 {
+			return i
+		}
+	}
+	return t.idx
+}
+
 // identifier of kind tk for target (inc, slot) as a Go value + its Coq target + its creation
 func (r *runner) ident(tk, inc, slot int) (any, string, int) {
 	t := r.target(inc, slot)
 	cr := r.creationCanon(r.w.creations[inc])
 	switch tk {
 	case tkPid:
-		return t.pid, targetCoq(tk, t.idx, slot), cr
+		return t.pid, targetCoq(tk, r.canonIdx(tk, t), slot), cr
 	case tkName:
 		return gen.ProcessID{Name: t.name, Node: r.w.bname}, targetCoq(tk, t.idx, slot), 0
 	case tkAlias:
-		return t.alias, targetCoq(tk, t.idx, slot), cr
+		return t.alias, targetCoq(tk, r.canonIdx(tk, t), slot), cr
 	case tkEvent:
 		return gen.Event{Name: t.event, Node: r.w.bname}, targetCoq(tk, t.idx, slot), 0
 	}
@@ -448,7 +467,7 @@ func (r *runner) exec(i int, s step) bool {
 		}
 		// unregisterProcess: pid, name, aliases, events
 		for _, tk := range []int{tkPid, tkName, tkAlias, tkEvent} {
-			r.rec(fmt.Sprintf("NTermFrame %s %d", targetCoq(tk, t.idx, s.Slot), s.Reason), eOK)
+			r.rec(fmt.Sprintf("NTermFrame %s %d", targetCoq(tk, r.canonIdx(tk, t), s.Slot), s.Reason), eOK)
 		}
 		r.stable(120*time.Millisecond, 1500*time.Millisecond)
 		r.res.stats[fmt.Sprintf("term-reason-%d", s.Reason)]++
